@@ -1,7 +1,7 @@
 from checks_common import *
 
 CHECK = dict(
-    src=['harness/c05_skip_neighbours.cpp'], variants=[P], level='exploration',
+    src=['harness/c05_skip_neighbours.cpp'], variants=[P, S16], level='exploration',
     technique='deviation-bounded exhaustive enumeration of offence substitutions (every <= N positions x every offence kind) executed on the real loaders with Skip policies; exact typed-load reference model',
     level_text='Every document obtained from each well-typed base document by replacing any <= 2 (thorough 3) values at any depth by a value of another kind or out of range '
                '(nil, bool, int, 2^40, negative int, float, string, array, map, bin), loaded with Skip/Skip, Skip-overflow/Throw-mismatch and Throw-overflow/Skip-mismatch policies, '
